@@ -19,6 +19,9 @@ Each family enumerates one dimension the property text names:
   malformed  exclusion words hostlist_create refuses (unbalanced brackets) at every position among well-formed ones
   oneword    several words in ONE -w argument in every order of {target, -exclusion, /re/, -/re/}: the word after a dash
   reonly     arguments holding only filters x the target source ($WCOLL read / ignored)
+  xonly      command lines holding only exclusions (-x list, `-` words, -x ^file) x the target source ($WCOLL read / ignored)
+  longtail   a name whose digit tail overflows strtoul (20+ digits) at every position of an exclusion list, among the
+             exclusion options, in an exclusion file, among the targets: the names around it are parsed as ever
 """
 import itertools
 import os
@@ -430,6 +433,67 @@ def systematic(Case, cwd, thorough=False):
         g = mk.fname("w")
         mk.add("reonly", ritems + [("tgt", "foo[2-3],bar1")], files={g: ["zz[1-3]"]}, wcoll_env=g,
                opts=ropts + [("-w", "foo[2-3],bar1")], note="WCOLL-ignored")
+    # ---------------------------------------------------------------- command lines holding ONLY exclusions (no filter, no
+    # target word) x the target source: $WCOLL must still be read (an exclusion produces no working collective either)
+    for k, (xopts, xitems, xf) in enumerate([
+            ([("-x", "foo2")], [("xcl", "foo2")], None),
+            ([("-w", "-foo2")], [("xcl", "foo2")], None),
+            ([("-x", "foo[2-3],bar1")], [("xcl", "foo[2-3],bar1")], None),
+            ([("-w", "-foo2,-bar1")], [("xcl", "foo2"), ("xcl", "bar1")], None),
+            ([("-x", "foo2"), ("-x", "foo4")], [("xcl", "foo2"), ("xcl", "foo4")], None),
+            ([("-x", "^F")], [("xfile", "F")], ["foo[2-3]", "bar1"]),
+            ([("-w", "-^F")], [("xfile", "F")], ["foo3"]),
+            ([("-x", "nosuch9")], [("xcl", "nosuch9")], None),
+            ([("-x", "foo2"), ("-x", "/4$/")], [("xcl", "foo2"), ("drop", "4$")], None),
+            ([("-x", "foo[1-4],bar1")], [("xcl", "foo[1-4],bar1")], None)]):
+        f = mk.fname("w")
+        files = {f: ["foo[1-4]", "bar1"]}
+        if xf is not None:
+            g = mk.fname("x")
+            files[g] = xf
+            xopts = [(fl, a.replace("F", g)) for fl, a in xopts]
+            xitems = [(kd, g if t == "F" else t) for kd, t in xitems]
+        mk.add("xonly", [("tfile", f)] + xitems, files=files, wcoll_env=f, opts=xopts, note="WCOLL")
+        if k % 2 == 0 or thorough:
+            g2 = mk.fname("w")
+            files2 = {kk: v for kk, v in files.items() if kk != f}
+            files2[g2] = ["zz[1-3]"]
+            mk.add("xonly", xitems + [("tgt", "foo[2-3],bar1")], files=files2, wcoll_env=g2,
+                   opts=xopts + [("-w", "foo[2-3],bar1")], note="WCOLL-ignored")
+    # ---------------------------------------------------------------- a name whose digit tail does not fit an unsigned
+    # long (20+ digits: strtoul answers ERANGE) at EVERY position of an exclusion list / among the exclusion options /
+    # in an exclusion file / among the targets: the names around it must be parsed as ever (a number found inside a
+    # bracketed target range), whatever was parsed before them; the long name itself is a plain (un-numbered) host
+    pt5 = "foo[1-5],bar"
+    for pi, poison in enumerate(["job20240929102030123456789", "n18446744073709551616", "99999999999999999999",
+                                 "foo100000000000000000003"]):
+        good = ["foo3", "foo5", "bar"] if pi == 0 else ["foo3", "foo5"]
+        perms = []
+        for pos in range(len(good) + 1):
+            w = list(good)
+            w.insert(pos, poison)
+            perms.append(w)
+        if pi == 0:
+            perms += [[poison, "foo[2-4]"], ["foo[2-4]", poison], ["foo[1-2]", poison, "foo[4-5]"]]
+        for k, ws in enumerate(perms):
+            items = [("tgt", pt5)] + [("xcl", w) for w in ws]
+            if pi == 0 or thorough or k % 2 == 0:
+                mk.add("longtail", [("tgt", pt5), ("xcl", ",".join(ws))], "sep", note="x-list")        # ONE -x list
+                mk.add("longtail", items, "sep", note="x-each")                                          # one -x per name
+            if pi == 0 or thorough or k % 2 == 1:
+                mk.add("longtail", items, "one", note="dash-words")                                      # -w t,-a,-b,-c
+                f = mk.fname("x")
+                mk.add("longtail", [("xfile", f), ("tgt", pt5)], "sep" if k % 2 else "dash", files={f: ws}, note="xfile")
+        # the long name among the TARGETS (before / between / behind the range), excluded or not; the exclusions must act
+        for k, tg in enumerate([poison + "," + pt5, "foo[1-2]," + poison + ",foo[3-5],bar", pt5 + "," + poison]):
+            mk.add("longtail", [("tgt", tg), ("xcl", "foo3")], ["sep", "one", "dash"][k], note="target")
+            mk.add("longtail", [("xcl", "foo[3-4]," + poison), ("tgt", tg)], ["one", "dash", "sep"][k], note="target+x")
+            if pi == 0 or thorough:
+                f = mk.fname("t")
+                mk.add("longtail", [("tfile", f), ("xcl", "foo3"), ("xcl", poison)], "sep", files={f: split_top(tg)},
+                       wcoll_env=f, note="WCOLL")
+        # a filter next to it
+        mk.add("longtail", [("tgt", pt5), ("xcl", poison), ("drop", "5$"), ("xcl", "foo3")], "sep", note="filter")
     return mk.out
 
 
@@ -461,4 +525,14 @@ def lib_histories(thorough=False):
                   ("node[0-2],alpha,n[00-03]", ["node0", "alpha,node0", "n[02,00]", "node[2,0],alpha", "n00"])]:
         for x in xs:
             out.append(["new", "push " + t, "find " + split_top(x)[0], "delete " + x, "hosts 200", "count"])
+    # a name whose digit tail overflows strtoul (errno = ERANGE afterwards) looked up / deleted / pushed BEFORE names
+    # that have to be found inside a range record: the later answers must not depend on it.  (Between two ops the
+    # harness's own stdio may overwrite errno: the histories that carry the long name and the others in ONE
+    # hostlist_delete call are the ones that keep errno as the library left it — verified on seeded C02-13.)
+    for poison in ["job20240929102030123456789", "n18446744073709551616", "99999999999999999999"]:
+        out.append(["new", "push foo[1-5],bar", "find " + poison, "find foo3", "delete " + poison, "delete foo3", "hosts 200",
+                    "find foo3", "find foo4", "count"])
+        out.append(["new", "push foo[1-5],bar," + poison, "find foo5", "delete foo3," + poison + ",foo5", "hosts 200", "count"])
+        out.append(["new", "push " + poison, "push foo[1-5]", "find foo2", "delete " + poison + ",foo[2-3]", "hosts 200",
+                    "find foo4", "delete_host foo4", "hosts 200", "count"])
     return out
